@@ -190,6 +190,157 @@ func genC18(g *gen) {
 	}
 	g.line("Definition gen_push_refused_when_closed : bool := %s.", coqBool(pushRefuses))
 
+	// ---- receivers of STREAM_DATA other than stream.Manager: the payload is
+	// delivered whatever the flags say, and before the FIN_WRITE handling
+	type recv struct{ name, file, recvT, fn, deliver string }
+	for _, r := range []recv{
+		{"exit", "internal/exit/handler.go", "Handler", "HandleStreamData", "ac.Conn.Write("},
+		{"forward", "internal/forward/handler.go", "Handler", "HandleStreamData", "ac.Conn.Write("},
+		{"file_upload", "internal/agent/agent.go", "Agent", "handleFileTransferStreamData", "fts.TempFile.Write("},
+		{"shell_client", "internal/agent/agent.go", "Agent", "handleShellClientData", "adapter.PushReceive("},
+		{"shell_server", "internal/shell/handler.go", "Handler", "HandleStreamData", "h.handleMessage("},
+	} {
+		fd := findFunc(parseFile(r.file), r.recvT, r.fn)
+		deliverPos, finPos := token.NoPos, token.NoPos
+		guardedByFlags := false
+		if fd != nil && fd.Body != nil {
+			var stack []ast.Node
+			ast.Inspect(fd.Body, func(n ast.Node) bool {
+				if n == nil {
+					stack = stack[:len(stack)-1]
+					return true
+				}
+				stack = append(stack, n)
+				switch x := n.(type) {
+				case *ast.CallExpr:
+					if strings.HasPrefix(src(x), r.deliver) && deliverPos == token.NoPos {
+						deliverPos = x.Pos()
+						// is the delivery nested in a conditional that looks at the flags?
+						for _, anc := range stack {
+							if ifs, ok := anc.(*ast.IfStmt); ok {
+								c := src(ifs.Cond)
+								if strings.Contains(c, "flags") || strings.Contains(c, "FlagFinWrite") {
+									guardedByFlags = true
+								}
+							}
+						}
+					}
+				case *ast.IfStmt:
+					if strings.Contains(src(x.Cond), "FlagFinWrite") && finPos == token.NoPos {
+						finPos = x.Pos()
+					}
+				}
+				return true
+			})
+		}
+		ok := deliverPos != token.NoPos && !guardedByFlags && (finPos == token.NoPos || deliverPos < finPos)
+		if r.name == "shell_server" {
+			ok = deliverPos != token.NoPos && !guardedByFlags // the flags travel into handleMessage with the data
+		}
+		if !ok {
+			g.note("%s.%s: delivery %q found=%v guarded by flags=%v before FIN handling=%v", r.recvT, r.fn, r.deliver, deliverPos != token.NoPos, guardedByFlags, finPos == token.NoPos || deliverPos < finPos)
+		}
+		g.line("Definition gen_%s_delivers_payload_before_fin : bool := %s.", r.name, coqBool(ok))
+	}
+	// exit / forward: the data block is entered exactly when the payload is non-empty
+	for _, r := range []struct{ name, file string }{{"exit", "internal/exit/handler.go"}, {"forward", "internal/forward/handler.go"}} {
+		cond := ""
+		if fd := findFunc(parseFile(r.file), "Handler", "HandleStreamData"); fd != nil && fd.Body != nil {
+			for _, st := range fd.Body.List {
+				if ifs, ok := st.(*ast.IfStmt); ok && strings.Contains(src(ifs.Body), "ac.Conn.Write(") {
+					cond = strings.ReplaceAll(src(ifs.Cond), " ", "")
+				}
+			}
+		}
+		g.line("Definition gen_%s_data_block_condition_is_nonempty_payload : bool := %s.", r.name, coqBool(cond == "len(data)>0"))
+	}
+
+	// ---- Stream state transitions: within each transition function every
+	// SetState happens while s.mu is held, in the same lock region as the State()
+	// read it is computed from (branches that end in return are separate paths)
+	sf := parseFile("internal/stream/manager.go")
+	atomicFn := func(name string) bool {
+		fd := findFunc(sf, "Stream", name)
+		if fd == nil || fd.Body == nil {
+			return false
+		}
+		locked, epoch, readEpoch, sawSet, ok := false, 0, -1, false, true
+		var walk func(n ast.Node)
+		walk = func(n ast.Node) {
+			ast.Inspect(n, func(m ast.Node) bool {
+				switch x := m.(type) {
+				case *ast.IfStmt:
+					// a branch that ends in return is its own path: its unlocks do not
+					// affect the code after the if
+					if len(x.Body.List) > 0 {
+						if _, isRet := x.Body.List[len(x.Body.List)-1].(*ast.ReturnStmt); isRet && x.Else == nil {
+							return false
+						}
+					}
+				case *ast.DeferStmt:
+					return false // a deferred unlock releases at function exit
+				case *ast.CallExpr:
+					switch src(x) {
+					case "s.mu.Lock()":
+						locked = true
+						epoch++
+					case "s.mu.Unlock()":
+						locked = false
+					case "s.State()":
+						if locked {
+							readEpoch = epoch
+						} else {
+							readEpoch = -2 // read without the lock
+						}
+					}
+					if strings.HasPrefix(src(x), "s.SetState(") {
+						sawSet = true
+						if !locked || (readEpoch != -1 && readEpoch != epoch) {
+							ok = false
+						}
+					}
+				}
+				return true
+			})
+		}
+		walk(fd.Body)
+		return sawSet && ok
+	}
+	for _, fn := range []string{"HandleRemoteFinWrite", "CloseWrite", "Close"} {
+		a := atomicFn(fn)
+		if !a {
+			g.note("Stream.%s: a SetState is outside the lock region of the state it was computed from", fn)
+		}
+		g.line("Definition gen_%s_transition_atomic : bool := %s.", fn, coqBool(a))
+	}
+	// who writes the state at all
+	var setters []string
+	if sf != nil {
+		for _, d := range sf.Decls {
+			fd, ok := d.(*ast.FuncDecl)
+			if !ok || fd.Body == nil {
+				continue
+			}
+			has := false
+			ast.Inspect(fd.Body, func(m ast.Node) bool {
+				if c, ok := m.(*ast.CallExpr); ok && (strings.HasSuffix(strings.Split(src(c), "(")[0], ".SetState") || strings.HasSuffix(strings.Split(src(c), "(")[0], ".state.Store")) {
+					has = true
+				}
+				return true
+			})
+			if has {
+				setters = append(setters, coqString(recvName(fd)+"."+fd.Name.Name))
+			}
+		}
+	}
+	// the only writers: the constructor, SetState itself, Open (before the stream is
+	// handed out) and the three transition functions checked above
+	wantSetters := `".NewStream"; "Stream.SetState"; "Stream.Open"; "Stream.CloseWrite"; "Stream.HandleRemoteFinWrite"; "Stream.Close"`
+	if strings.Join(setters, "; ") != wantSetters {
+		g.note("state writers: %s", strings.Join(setters, "; "))
+	}
+	g.line("Definition gen_state_writers_are_the_transition_functions : bool := %s.", coqBool(strings.Join(setters, "; ") == wantSetters))
+
 	// meshConn.Write: first statement is `if !c.stream.CanWrite() { return 0, ... }`
 	af := parseFile("internal/agent/agent.go")
 	guard := false
